@@ -17,7 +17,8 @@ def from_trace_codes_file(path: str) -> Mapping[int, str]:
     :param path: Trace codes file path.
     :return: Mapping between code and event name.
     """
-    with open(path, 'r') as fd:
+    # Read as UTF-8 whatever the locale of the host is.
+    with open(path, 'r', encoding='utf-8') as fd:
         return from_trace_codes_text(fd.read())
 
 
@@ -26,5 +27,5 @@ def default_trace_codes() -> Mapping[int, str]:
     Get the default trace codes mapping.
     :return: Mapping between code and event name.
     """
-    with open(Path(__file__).resolve().parent.joinpath('trace.codes'), 'r') as fd:
+    with open(Path(__file__).resolve().parent.joinpath('trace.codes'), 'r', encoding='utf-8') as fd:
         return from_trace_codes_text(fd.read())
